@@ -21,6 +21,11 @@ class Daemon:
     def __init__(self, policy=SESSION_POLICY, limits=None, extra="", auth=None, servicedirs=(), bus_type="session"):
         os.makedirs(RUNROOT, exist_ok=True)
         self.dir = tempfile.mkdtemp(prefix="bus-", dir=RUNROOT)
+        for d in (self.dir, RUNROOT):       # clients of other uids must be able to reach the socket
+            try:
+                os.chmod(d, 0o755)
+            except OSError:
+                pass
         self.path = os.path.join(self.dir, "sock")
         lim = "".join('  <limit name="%s">%d</limit>\n' % kv for kv in (limits or {}).items())
         au = "".join("  <auth>%s</auth>\n" % a for a in (auth or []))
